@@ -231,11 +231,26 @@ def _run_w(ch: Choices, tier: str) -> tuple[Program, dict[str, Any], dict[str, A
     knobs.peer_emulation = bool(ch.pick("k.peer", 2))
     persistent = bool(ch.pick("c18.persistent", 2))
     delay = ch.choice("c18.delay", [0.0, 0.005, 0.02, 0.04, 0.08, 0.15, 0.3])
-    info: dict[str, Any] = {"engine": "W", "persistent": persistent, "sent": False, "delay": delay}
+    # when the signal is sent: after a seeded delay, or at the instant the suspending task's code has run and its
+    # result (SUSPENDED) is about to be committed by the other worker - the window in which "is the stage suspended?"
+    # and "buffer or deliver?" are decided on different reads
+    trigger = ch.choice("c18.trigger", ["time", "time", "on-suspend-exec"])
+    info: dict[str, Any] = {"engine": "W", "persistent": persistent, "sent": False, "delay": delay, "trigger": trigger}
 
     def mk(world: Any) -> Any:
         def body(wk: Any) -> None:
-            world.sched.sleep(delay)
+            if trigger == "on-suspend-exec":
+                for _ in range(4000):
+                    if world.sched.stopping:
+                        return
+                    if any(e["result"] == "suspender:suspend" for e in world.ledger):
+                        break
+                    world.sched.sleep(0.0003)
+                else:
+                    return
+                world.fault("signal_at_suspend_exec")
+            else:
+                world.sched.sleep(delay)
             rows = world.hquery("SELECT id FROM pipeline_executions")
             send(world, rows[0]["id"], persistent, "sig1")
             info["sent"] = True
